@@ -5,7 +5,8 @@
 
    The JWT library is an oracle: [jwt tok] is the outcome of golang-jwt's ParseWithClaims (RSA
    public key from the work-verification file, RegisteredClaims.Valid, VerifyAudience(node ID))
-   on a NON-EMPTY token string.  Nothing is assumed of it: the theorems hold for every oracle and
+   on a NON-EMPTY token string ([JExpired] stands for every time claim that makes the library
+   refuse: `exp` in the past, `nbf` or `iat` in the future).  Nothing is assumed of it: the theorems hold for every oracle and
    say that an effect needs the answer [JValid].  An absent `signature` field and an empty string
    are the same thing for the code (strFromMap error → "") and for the model ([] = no token). *)
 From Receptor Require Export Base.Hex.
